@@ -17,10 +17,11 @@ EXTRA_TARGETS = ["MG.DriverEng"]
 THEOREMS = {
     "MG.Proofs.C06": [
         "MG.C06.view_grad_is_view",
-        "MG.C06.view_grad_statement",
         "MG.C06.view_grad_neg",
+        "MG.C06.reshape_contig_is_view",
+        "MG.C06.permuting_views_never_copy",
         "MG.C06.reshape_view_iff_mergeable_example",
-    ]
+    ],
 }
 
 GEN = dict(inplace=True, p_inplace=0.12, p_view=0.4, p_fail=0.0, p_const=0.08, n_stmts=9)
